@@ -457,8 +457,52 @@ func c20(r *Report) {
 						return isK && strings.HasPrefix(sfmt, "multipart/byteranges; boundary=")
 					})
 				}
-				pb := g.PathTo([]ssa.Instruction{c}, false, isMPBody, isReturn)
-				pt := g.PathTo([]ssa.Instruction{c}, false, isMPType, isReturn)
+				// (a return that hands on the error of Close itself is not an answer)
+				isAnswer := func(i ssa.Instruction) bool {
+					ret, isRet := i.(*ssa.Return)
+					if !isRet || len(ret.Results) == 0 {
+						return isRet
+					}
+					for _, l := range resolveAll(ret.Results[len(ret.Results)-1]) {
+						if isNilConst(l) {
+							return true
+						}
+					}
+					return false
+				}
+				pb := g.PathTo([]ssa.Instruction{c}, false, isMPBody, isAnswer)
+				pt := g.PathTo([]ssa.Instruction{c}, false, isMPType, isAnswer)
+				// the length announced is the length of the finished body: the buffer is measured after
+				// Close has written the closing delimiter, not before
+				{
+					nLen, okLen := 0, true
+					var at token.Pos = c.Pos()
+					for _, in := range instrs(f) {
+						st, isSt := in.(*ssa.Store)
+						if !isSt || msgFieldAddr(st.Addr, "ContentLength") == nil {
+							continue
+						}
+						for v := range w.backSlice(st.Val, flowOpt{}) {
+							lc, isC := v.(*ssa.Call)
+							if !isC {
+								continue
+							}
+							measures := calleeName(lc) == "(*bytes.Buffer).Len"
+							if b, isB := lc.Call.Value.(*ssa.Builtin); isB && b.Name() == "len" && isCallValue(lc.Call.Args[0], "(*bytes.Buffer).Bytes") {
+								measures = true
+							}
+							if !measures || !g.Before(c, st) {
+								continue
+							}
+							nLen++
+							if !g.Before(c, lc) {
+								okLen = false
+								at = lc.Pos()
+							}
+						}
+					}
+					r.Decide("path", fmt.Sprintf("(*M/%s.Modifier).ModifyResponse: the multipart body is measured after its writer is closed", m.name), nLen >= 1 && okLen, "the Len() / len(Bytes()) that feeds Content-Length follows Close", "Content-Length is taken from the buffer before Close appends the closing delimiter: a multi-range answer announces fewer octets than it carries and the client cuts the last boundary off (or the connection desynchronises)", at)
+				}
 				r.Decide("path", fmt.Sprintf("(*M/%s.Modifier).ModifyResponse: the multipart buffer becomes the body of a multi-range answer", m.name), pb == nil, "a Body store fed by the buffer's Bytes() lies on every path from Close to the return", "a multi-range request is answered 206 with the original body (or none): the assembled parts are dropped", c.Pos())
 				r.Decide("path", fmt.Sprintf("(*M/%s.Modifier).ModifyResponse: a multi-range answer is announced as multipart/byteranges", m.name), pt == nil, "Content-Type: multipart/byteranges; boundary=... is set on every path from Close to the return", "the multipart body goes out under the file's own Content-Type: the client cannot take the parts apart", c.Pos())
 			}
